@@ -46,6 +46,8 @@ func checkC18(c *Ctx) {
 	c.rule("FLOW-prefix-confinement", "PrefixDB hands only prefixed keys to the wrapped store and strips exactly the prefix", 12)
 	c.rule("TYPESTATE-batch", "a written batch is closed; a closed batch rejects use", 8)
 	c.rule("LOCK-memdb", "MemDB lock pairing incl. the iterator hand-off", 8)
+	c.rule("FRESH-prefix-buffer", "keys handed to the wrapped store are built in fresh memory, never by appending to a shared prefix slice", 1)
+	checkPrefixBuffers(c)
 
 	type mspec struct {
 		name   string
@@ -807,5 +809,65 @@ func checkBackendTables(c *Ctx) {
 			}
 			c.decide("TABLE-backend-iterators", fmt.Sprintf("MemDB visitor skipEqual=%s abortLessThan=%s", []string{"absent", "equals key", "differs"}[sk], []string{"absent", "key below", "key not below"}[ab]), l.pos(vis.Pos()), outcome == want, outcome, "visitor does ["+outcome+"], the rule is ["+want+"] (skip the exclusive end once, stop below start, otherwise yield)")
 		}
+	}
+}
+
+// checkPrefixBuffers: `append(shared, key...)` writes into shared's backing
+// array whenever it has spare capacity; a store that keeps keys by reference
+// (MemDB) then sees its stored keys rewritten by the next operation.  In the
+// db package every append whose destination is a slice loaded from a struct
+// field (the wrapper's prefix) must go through a copy (cp / make+copy) or a
+// full slice expression that caps the capacity.
+func checkPrefixBuffers(c *Ctx) {
+	l := c.L
+	const R = "FRESH-prefix-buffer"
+	n := 0
+	for _, fn := range l.SrcFuncs {
+		if l.pkgPathOf(fn) != l.ModPath+"/db" {
+			continue
+		}
+		allInstrs(fn, func(in ssa.Instruction) {
+			call, ok := in.(*ssa.Call)
+			if !ok {
+				return
+			}
+			bi, ok := call.Call.Value.(*ssa.Builtin)
+			if !ok || bi.Name() != "append" || len(call.Call.Args) == 0 {
+				return
+			}
+			dst := call.Call.Args[0]
+			role := roleOf(l, dst, "", 0)
+			// destinations rooted at the receiver / a parameter's field, or a parameter itself
+			shared := false
+			switch x := stripTrivial(dst).(type) {
+			case *ssa.UnOp:
+				if _, isFA := x.X.(*ssa.FieldAddr); isFA && x.Op == token.MUL {
+					shared = true
+				}
+			case *ssa.Field:
+				shared = true
+			case *ssa.Parameter:
+				shared = true
+			}
+			if sl, ok := stripTrivial(dst).(*ssa.Slice); ok && sl.Max != nil {
+				shared = false // capacity capped: append must reallocate
+			}
+			// appending to the function's own accumulator stored back into the same field is not a key build
+			if shared {
+				for _, r := range refs(call) {
+					if st, ok := r.(*ssa.Store); ok && roleOf(l, st.Addr, "", 0) == role {
+						shared = false
+					}
+				}
+			}
+			if !strings.Contains(strings.ToLower(role), "prefix") && !shared {
+				return
+			}
+			n++
+			c.decide(R, l.fname(fn)+" append("+role+", …)", l.ipos(in), !shared, "destination is a fresh copy", "append writes into the shared slice `"+role+"` when it has spare capacity: keys already handed to a by-reference store are rewritten by the next operation")
+		})
+	}
+	if n < 1 {
+		c.anchorMissing(R, "no prefix-building append found in package db")
 	}
 }
